@@ -1,1 +1,114 @@
-From FV.C07 Require Import Model.
+(* C07 — property theorems about the model of VariationModel (FV.C07.Model).
+   Statements only; the proofs are in Tents, Trim, Influence, Deltas, Main. *)
+From Coq Require Import List ZArith QArith Qabs Bool Sorting.Permutation.
+From FV.C07 Require Import Model Tents Trim Influence Deltas Main.
+Import ListNotations.
+
+(* Input: any finite set of distinct locations with one (scaled integer)
+   coordinate per axis; any number of axes n, any number of masters. *)
+
+(* 1. The model keeps exactly the supplied locations. *)
+Theorem model_locations_are_the_masters : forall n locs, wf_input n locs ->
+  Permutation (m_locs (model_new locs)) locs.
+Proof. intros n locs H. exact (proj1 (model_invariants n locs H)). Qed.
+Print Assumptions model_locations_are_the_masters.
+
+(* 2. Every region it builds has min <= peak <= max, never spans zero, and
+      peaks at its own master. *)
+Theorem tents_valid : forall n locs, wf_input n locs ->
+  let m := model_new locs in
+  Forall2 (fun l r =>
+    Forall2 (fun v t => tpeak t = v /\ (tmin t <= tpeak t <= tmax t)%Z
+                        /\ ~ (tmin t < 0 < tmax t)%Z) l (tents r))
+    (m_locs m) (m_infl m).
+Proof.
+  intros n locs H. destruct (model_invariants n locs H) as (_ & A & _). cbn zeta.
+  eapply Forall2_impl; [|exact A]. intros l r [Hw _].
+  eapply Forall2_impl; [|exact Hw]. intros v t [Hp Hv]. cbn beta. split; [exact Hp|exact Hv].
+Qed.
+Print Assumptions tents_valid.
+
+(* 3. Region scalars lie in [0,1], at every location, for every region. *)
+Theorem scalar_in_unit : forall (r : region) (l : loc), (0 <= scalar_at r l <= 1)%Q.
+Proof. intros r l. apply scalar_tents_unit. Qed.
+Print Assumptions scalar_in_unit.
+
+(* 4. In the model's order a master's own region has scalar 1 at the master and
+      no later master's region reaches it. *)
+Theorem own_scalar_one : forall n locs, wf_input n locs ->
+  let m := model_new locs in
+  forall i l r, nth_error (m_locs m) i = Some l -> nth_error (m_infl m) i = Some r ->
+    (scalar_at r l == 1)%Q.
+Proof.
+  intros n locs H. destruct (model_invariants n locs H) as (_ & A & _). cbn zeta.
+  apply own_scalar_gen. exact A.
+Qed.
+Print Assumptions own_scalar_one.
+
+Theorem later_has_no_influence : forall n locs, wf_input n locs ->
+  let m := model_new locs in
+  forall i j l r, (i < j)%nat -> nth_error (m_locs m) i = Some l -> nth_error (m_infl m) j = Some r ->
+    (scalar_at r l == 0)%Q.
+Proof.
+  intros n locs H. destruct (model_invariants n locs H) as (_ & A & B & _). cbn zeta.
+  intros i j l r Hij Hl Hr. exact (later_scalar_at _ _ B i j l r Hij Hl Hr).
+Qed.
+Print Assumptions later_has_no_influence.
+
+(* 5. Without rounding, applying the computed deltas at a master's location
+      returns that master's value exactly — for every subset of masters that
+      defines values (vals k = None: no value at the k-th model location). *)
+Theorem deltas_reproduce_exact : forall n locs, wf_input n locs ->
+  let m := model_new locs in
+  forall vals, length vals = length (m_locs m) ->
+  forall k lk x, nth_error (m_locs m) k = Some lk -> nth_error vals k = Some (Some x) ->
+    (interpolate (m_infl m) (deltas m false vals) lk == x)%Q.
+Proof.
+  intros n locs H. destruct (model_invariants n locs H) as (_ & A & B & C). cbn zeta.
+  intros vals Hv k lk x Hk Hx. unfold deltas. rewrite C.
+  exact (reproduce _ _ A B false vals Hv k lk x Hk Hx).
+Qed.
+Print Assumptions deltas_reproduce_exact.
+
+(* 6. With round-ties-even deltas the master is reproduced within 1/2. *)
+Theorem deltas_reproduce_rounded : forall n locs, wf_input n locs ->
+  let m := model_new locs in
+  forall vals, length vals = length (m_locs m) ->
+  forall k lk x, nth_error (m_locs m) k = Some lk -> nth_error vals k = Some (Some x) ->
+    (Qabs (interpolate (m_infl m) (deltas m true vals) lk - x) <= 1 # 2)%Q.
+Proof.
+  intros n locs H. destruct (model_invariants n locs H) as (_ & A & B & C). cbn zeta.
+  intros vals Hv k lk x Hk Hx. unfold deltas. rewrite C.
+  exact (reproduce _ _ A B true vals Hv k lk x Hk Hx).
+Qed.
+Print Assumptions deltas_reproduce_rounded.
+
+(* 7. The default master (the origin) is the first model location, and the
+      value interpolated there is the default's value itself (its rounding,
+      when rounding is on: exact for integer values). *)
+Theorem default_exact : forall n locs o, wf_input n locs -> In o locs -> is_origin o ->
+  let m := model_new locs in
+  nth_error (m_locs m) 0 = Some o /\
+  forall rounding vals x, length vals = length (m_locs m) -> nth_error vals 0 = Some (Some x) ->
+    (interpolate (m_infl m) (deltas m rounding vals) o == apply_rounding rounding x)%Q.
+Proof.
+  intros n locs o H Hin Ho. destruct (model_invariants n locs H) as (_ & A & B & C). cbn zeta.
+  pose proof (origin_first n locs o H Hin Ho) as H0. split; [exact H0|].
+  intros rounding vals x Hv Hx. unfold deltas. rewrite C.
+  exact (reproduce_first _ _ A B rounding vals Hv o x H0 Hx).
+Qed.
+Print Assumptions default_exact.
+
+Theorem default_exact_integer : forall z : Z, apply_rounding true (inject_Z z) = inject_Z z.
+Proof. intro z. unfold apply_rounding. rewrite round_ties_even_int. reflexivity. Qed.
+Print Assumptions default_exact_integer.
+
+(* the hypotheses are satisfiable by a non-trivial layout (two axes, corner,
+   on-axis and interior masters) *)
+Example layout : list loc := [[0;0];[10;10];[0;10];[10;0];[5;5];[-10;0]]%Z.
+Example layout_wf : wf_input 2 layout.
+Proof.
+  split.
+  - repeat (constructor; [cbn; intuition discriminate|]). constructor.
+  - repeat constructor.
+Qed.
